@@ -505,7 +505,7 @@ func main() {
 	// T3 (C19): mutation facts (mutfacts.go)
 	emitMutFacts(repo, out)
 
-	// T3 (C11): sources of run-to-run nondeterminism (detfacts.go)
+	// (T3 for C11, the determinism facts, come from tools/detscan: they need the type checker)
 	// T3 (C02/C03): guard facts of the format parsers (fmtfacts.go)
 	emitFmtFacts(repo, out)
 }
